@@ -7,7 +7,7 @@ children must be visited or answered conservatively (`false` = complex, do not p
 the same per-variant truthiness table (bool / non-zero / false / error).
 Does NOT decide that AND/OR/NOT implement Kleene logic, LIKE/BETWEEN semantics.
 The truthiness agreement also covers the inline keep/drop matches of the WHERE pipeline (scan-level filters,
-zero-copy filters, their parallel closures, the post-join filter), discovered from the code.The WHERE pre-processing is also covered: (fold) optimize_expression folds an expression to a literal only when every
+zero-copy filters, their parallel closures, the post-join filter), discovered from the code.  The WHERE pre-processing is also covered: (fold) optimize_expression folds an expression to a literal only when every
 optimized child was tested to be a literal (a NULL column operand must keep a NULL result); (exact) the columnar
 predicate extractor accepts an expression only on paths that emit a predicate for it (it is the only filter of the
 ungrouped columnar aggregate path); (range) the C02 bound/flag pairing rule of the index range extractor.
